@@ -15,8 +15,10 @@ def tu_source(g, gid=None, dflt=(), limits=None, ctx=()):
     for i, n in enumerate(g.nts):
         o.append('nterm<Node> n%d("%s");' % (i, 'N%d' % i))
     for i, t in enumerate(g.ts):
-        o.append('TT t%d(char_term(%s, %d, associativity(%d)), vh::TermF{%d});' % (
-            i, cchar(ord(t)), g.tprec.get(t, 0), g.tassoc.get(t, 0), i))
+        # declarations as a user writes them: default arguments are used whenever precedence / associativity are default
+        pr, asc = g.tprec.get(t, 0), g.tassoc.get(t, 0)
+        ct = 'char_term(%s)' % cchar(ord(t)) if (pr, asc) == (0, 0) else ('char_term(%s, %d)' % (cchar(ord(t)), pr) if asc == 0 else 'char_term(%s, %d, associativity(%d))' % (cchar(ord(t)), pr, asc))
+        o.append('TT t%d(%s, vh::TermF{%d});' % (i, ct, i))
     ntid = {n: i for i, n in enumerate(g.nts)}
     tid = {t: i for i, t in enumerate(g.ts)}
     rl = []
@@ -124,7 +126,13 @@ def clex_tu(g, gid):
     for i, n in enumerate(g.nts):
         o.append('nterm<Node> n%d("N%d");' % (i, i))
     for i, t in enumerate(g.ts):
-        o.append('custom_term t%d("T%d", vh::TermF{%d}, %d, associativity(%d));' % (i, i, i, g.tprec.get(t, 0), g.tassoc.get(t, 0)))
+        pr, asc = g.tprec.get(t, 0), g.tassoc.get(t, 0)
+        if (pr, asc) == (0, 0):
+            o.append('custom_term t%d("T%d", vh::TermF{%d});' % (i, i, i))
+        elif asc == 0:
+            o.append('custom_term t%d("T%d", vh::TermF{%d}, %d);' % (i, i, i, pr))
+        else:
+            o.append('custom_term t%d("T%d", vh::TermF{%d}, %d, associativity(%d));' % (i, i, i, pr, asc))
     rl = []
     for ri, (l, rhs, prec) in enumerate(g.rules):
         args = ', '.join('n%d' % ntid[x] if x in ntid else ('error' if x == 'error' else 't%d' % tid[x]) for x in rhs)
